@@ -9,6 +9,7 @@ CONSTANTS
   BFaults <- BFaultsNone
   Ras <- RasNone
   Modes = {"exec"}
+  RunGaps <- GapsNone
   NRuns = 1
   Configs <- ConfigsC11x
   RecordHist = TRUE
